@@ -78,13 +78,17 @@ def crash_info(err):
         break
     return fatal, frame
 
+# watchdog of engine W: deadline of one driver step that waits for the code under test / outer timeout of one harness process
+W_OPTS = {"deadline": 20, "timeout": 300}
+HANG_CODES = ("connection-hung", "close-never-returned")
+
 def run_w(binp, scenarios, workdir, nshards):
     os.makedirs(workdir, exist_ok=True)
     shards = engine.shard(scenarios, max(nshards, len(scenarios) // 200))     # short-lived processes whatever the CPU count
     def one(arg):
         i, sh = arg
         combined = os.path.join(workdir, f"w_trace_{i}.ndjson")
-        rest, base, attempt, crashes = list(sh), 0, 0, []
+        rest, base, attempt, crashes, hangs = list(sh), 0, 0, [], 0
         with open(combined, "w") as out:
             while rest:
                 fin = os.path.join(workdir, f"w_in_{i}_{attempt}.ndjson")
@@ -93,7 +97,8 @@ def run_w(binp, scenarios, workdir, nshards):
                     for sc in rest:
                         fh.write(json.dumps(sc) + "\n")
                 try:
-                    p = vbuild.run_test(binp, "TestVerifW", {"VERIF_IN": fin, "VERIF_OUT": fout, "VERIF_IDX0": str(base)}, cwd=workdir, timeout=1500)
+                    p = vbuild.run_test(binp, "TestVerifW", {"VERIF_IN": fin, "VERIF_OUT": fout, "VERIF_IDX0": str(base),
+                                                             "VERIF_STEP_DEADLINE": str(W_OPTS["deadline"])}, cwd=workdir, timeout=W_OPTS["timeout"])
                 except Exception as ex:
                     raise InfraError(f"engine W shard {i} did not finish: {ex}")
                 lines = []
@@ -109,6 +114,16 @@ def run_w(binp, scenarios, workdir, nshards):
                             lines.append(ln)
                 if p.returncode == 0 and "PASS" in p.stdout:
                     out.write("".join(l + "\n" for l in lines))
+                    nb = sum(1 for l in lines if '"e":"begin"' in l)
+                    if "VW-HANG-STOP" in p.stdout and 0 < nb < len(rest):
+                        # the watchdog abandoned a hung history (recorded as a `hang` event) and stopped the process: the rest
+                        # of the shard goes to a fresh one; after three hangs in one shard the rest is skipped (recorded)
+                        hangs += 1
+                        if hangs >= 3:
+                            crashes.append({"name": rest[nb]["name"], "fatal": "skipped", "frame": f"{len(rest) - nb} histories of this shard not run after {hangs} hangs"})
+                            break
+                        rest, base, attempt = rest[nb:], base + nb, attempt + 1
+                        continue
                     break
                 nb = sum(1 for l in lines if '"e":"begin"' in l)
                 ne = sum(1 for l in lines if '"e":"end"' in l)
@@ -136,6 +151,36 @@ def run_w(binp, scenarios, workdir, nshards):
             traces.append(tr)
             crashes += cr
     return traces, crashes
+
+def confirm_hangs(binp, viols, byname, workdir):
+    """A `hang` (watchdog of engine W) counts only if the SAME history hangs again when it is run alone in a fresh process.
+    Returns (violations to keep, info).  At most three distinct histories are re-run; further hangs blocked in the same frame
+    as a confirmed one are kept without a re-run.  A hang that does not repeat is an infrastructure problem."""
+    keep, info, verdict, frames = [], [], {}, set()
+    for v in viols:
+        if v.get("code") not in HANG_CODES:
+            keep.append(v)
+            continue
+        name, frame = v.get("name"), v["detail"].get("blocked_in")
+        if name not in verdict:
+            if len(verdict) >= 3:
+                verdict[name] = frame in frames
+            else:
+                sc = byname.get(name)
+                again = False
+                if sc is not None:
+                    trs, _ = run_w(binp, [sc], os.path.join(workdir, f"hang_{len(verdict)}"), 1)
+                    again = any('"e":"hang"' in ln for tr in trs for ln in open(tr))
+                verdict[name] = again
+                info.append({"history": name, "blocked_in": frame, "what": v["detail"].get("what"), "hangs_again_alone": again})
+                if again:
+                    frames.add(frame)
+        if verdict[name]:
+            keep.append(v)
+    lost = [i for i in info if not i["hangs_again_alone"]]
+    if lost:
+        raise InfraError("engine W: a history hung once but not when run alone in a fresh process (load? not a verdict): " + json.dumps(lost))
+    return keep, info
 
 # ------------------------------------------------------------------ binding self-test
 
@@ -239,6 +284,58 @@ def selftest(traces, workdir, dirty=()):
         res.append({"kind": kind, "corruption": desc, "expected_code": code, "rejected": code in codes, "codes": codes})
     return res
 
+# ------------------------------------------------------------------ reply correlation on real protocol objects (shared with C03)
+
+def corr_stats(traces):
+    st = {"commands": 0, "replies": 0, "async_notices": 0, "idle_periods": 0, "text_connections": 0, "binary_connections": 0, "hangs": 0}
+    for tr in traces:
+        with open(tr) as fh:
+            for ln in fh:
+                e = json.loads(ln)
+                k = e["e"]
+                if k == "wreq":
+                    st["commands"] += 1
+                elif k in ("wframe", "wtext"):
+                    st["replies"] += 1
+                    if k == "wframe" and e["res"] == 9:
+                        st["async_notices"] += 1
+                elif k == "wtick":
+                    st["idle_periods"] += 1
+                elif k == "wconn":
+                    st["text_connections" if e["kind"] == "text" else "binary_connections"] += 1
+                elif k == "hang":
+                    st["hangs"] += 1
+    return st
+
+def run_c03_part(out, tier, seed, wd):
+    """C03 ("exactly one terminal reply per request, to the right client") on REAL text / binary protocol objects: idle
+    connections whose holds expire / whose queued requests time out, then more commands (lib/gen_sess.gen_idle) on engine W;
+    every trace validated by TLC against the reply-correlation clauses of spec/mon/MonSession.tla (Props = {"C03"}).
+    Appends violations (prop C03) to out.viols and returns a coverage dict."""
+    quick = tier == "quick"
+    W_OPTS.update({"deadline": 20, "timeout": 300} if quick else {"deadline": 60, "timeout": 1500})
+    n = 110 if quick else 2000
+    scs = [gen_sess.gen_idle(seed, i) for i in range(n)] + [d for d in gen_sess.directed() if d["name"].startswith("dir-idle-")]
+    sub = os.path.join(wd, "c03w")
+    os.makedirs(sub, exist_ok=True)
+    binp = os.path.join(wd, "server.test")
+    if not os.path.exists(binp):
+        binp = vbuild.build_inpkg("server", wd)
+    t0 = time.time()
+    traces, crashes = run_w(binp, scs, os.path.join(sub, "run"), engine.NCPU)
+    if crashes:
+        raise InfraError("engine W (C03 part): a harness process died: " + json.dumps(crashes[:3]))
+    viols, mst = engine.monitor_traces("MonSession", traces, ["C03"], os.path.join(sub, "mon"), timeout=900)
+    byname = {sc["name"]: sc for sc in scs}
+    viols, hanginfo = confirm_hangs(binp, [v for v in viols if v["prop"] == "C03"], byname, sub)
+    for v in viols:
+        out.viols.append((v, byname.get(v.get("name"))))
+    cov = corr_stats(traces)
+    cov.update({"histories": len(scs), "monitor_events": mst["events"], "hangs_confirmed_alone": hanginfo, "wall_s": round(time.time() - t0, 1),
+                "engine": "W (real Binary/TextServerProtocol over net.Pipe, virtual clock)", "monitor": "spec/mon/MonSession.tla clauses R1-R4, Props = {C03}",
+                "sample": {"name": scs[0]["name"], "steps": scs[0]["steps"][:12]}})
+    return cov
+
 # ------------------------------------------------------------------ the check
 
 def run(prop, tier, seed):
@@ -247,6 +344,7 @@ def run(prop, tier, seed):
     try:
         quick = tier == "quick"
         ncpu = engine.NCPU
+        W_OPTS.update({"deadline": 20, "timeout": 300} if quick else {"deadline": 60, "timeout": 1500})
         # (1) design checks
         models = []
         qcfg = read_cfg("Session_quick.cfg")
@@ -289,15 +387,16 @@ def run(prop, tier, seed):
         nr = 220 if quick else 3000
         rnd = [gen_sess.gen_random(seed, i, safe=(i % 8 != 7)) for i in range(nr)]
         direct = gen_sess.directed()
-        scs = cex_scs + beh_scs + rnd + direct
+        idle = [gen_sess.gen_idle(seed, i) for i in range(50 if quick else 1000)]
+        scs = cex_scs + beh_scs + rnd + direct + idle
         binp = vbuild.build_inpkg("server", wd)
         traces, crashes = run_w(binp, scs, os.path.join(wd, "run"), ncpu)
         # (5) monitor
         viols, mst = engine.monitor_traces("MonSession", traces, [prop], os.path.join(wd, "mon"), timeout=1500)
         byname = {sc["name"]: sc for sc in scs}
+        viols, hanginfo = confirm_hangs(binp, [v for v in viols if v["prop"] == prop], byname, wd)
         for v in viols:
-            if v["prop"] == prop:
-                out.viols.append((v, byname.get(v.get("name"))))
+            out.viols.append((v, byname.get(v.get("name"))))
         cex_names = {v.get("name") for v in viols}
         for c, sc in zip(cex, cex_scs):
             c["reproduced_on_real_code"] = sc["name"] in cex_names
@@ -346,6 +445,7 @@ def run(prop, tier, seed):
             "tlc_behaviours_replayed": len(beh_scs), "tlc_behaviours_ending_in_model_crash": model_crashes,
             "refinement": {"behaviours_compared_with_model_prediction": ncmp, "divergences": len(div), "first": div[:5],
                            "note": "holders of the shared keys at the end of each TLC behaviour, as-is model vs real code; a divergence is never a verdict"},
+            "idle_histories": len(idle), "reply_correlation": corr_stats(traces), "hangs_confirmed_alone": hanginfo,
             "random_histories": len(rnd), "directed_histories": len(direct),
             "harness_processes_that_died_in_a_scenario": len(crashes), "died_in": sorted({c["frame"] for c in crashes}),
             "observed": cov,
